@@ -171,7 +171,7 @@ func RunProperty(repo string, cfg *PropertyConfig, kf *KnownFindingsFile, timeou
 			}
 			v := &Violation{Property: cfg.ID, Unit: u.Unit, Obligation: o.Name, Kind: o.Kind, Pos: o.Pos, Clause: o.Clause, Status: o.Status,
 				Output: o.Output, Pkg: u.Pkg}
-			if o.Status == "sat" {
+			if o.Status == "sat" || o.Candidate {
 				v.Model = map[string]string{}
 				for _, in := range u.Inputs {
 					if val, ok := o.Model[in.Term.S]; ok {
